@@ -212,6 +212,52 @@ def gen_case(rng, root, i):
     return {"env": env, "fn": fn, "dst": dst, "sources": sources, "target": target}
 
 
+def walk_order(node, prefix):
+    """the entries beneath (and including) prefix in filepath.Walk order: pre-order, names in byte order"""
+    out = [prefix]
+    if node[0] == "d":
+        for nm in sorted(node[2], key=lambda x: x.encode()):
+            out += walk_order(node[2][nm], prefix + "/" + nm)
+    return out
+
+
+def set_mtime(node, comps_, t):
+    """a copy of the tree with the entry at comps_ stamped t"""
+    if not comps_:
+        return ("f", t) if node[0] == "f" else ("d", t, node[2])
+    kids = dict(node[2])
+    kids[comps_[0]] = set_mtime(kids[comps_[0]], comps_[1:], t)
+    return ("d", node[1], kids)
+
+
+def big_cases(ctx, rng, trees, reqs, ti):
+    """a LARGE tree (about 2100 entries) in which exactly one entry decides, at a sample of walk positions (powers of two,
+    multiples of 1000 and 1024 and their neighbours, the ends, random ones): everything beneath a source counts, wherever
+    it sits.  Judged by the oracle only (the tree is too large to print into a Coq case file a hundred times)."""
+    OLD, NEW, OLDER = BASE - 10**9, BASE + 10**9, BASE - 2 * 10**9
+    big = ("d", OLD, {"pkg%02d" % i: ("d", OLD, {"src": ("d", OLD, {"f%02d.go" % j: ("f", OLD) for j in range(46)})}) for i in range(44)})
+    root = ("d", OLD, {"big": big, "out": ("f", BASE), "outdir": ("d", BASE, {"o": ("f", BASE)})})
+    d = os.path.join(ctx.tmp, "tbig%d" % ti)
+    build(d, root)
+    order = walk_order(big, "big")
+    n = len(order)
+    pos = {1, 2, 3, n - 1, n, 1000, 2000} | {2**k + dlt for k in range(5, 12) for dlt in (-1, 0, 1)} | {1024 * k for k in (1, 2)} | {rng.randrange(1, n + 1) for _ in range(12 if ctx.quick else 200)}
+    prev = None
+    for p in sorted(x for x in pos if 1 <= x <= n):
+        path = order[p - 1]
+        for stamp, calls in [(NEW, [("DirNewer", "", ["big"]), ("Dir", "out", ["big"]), ("Dir", "outdir", ["big", "out"]), ("NewestModTime", "", ["big"]), ("Dir", "big", ["out"])]),
+                             (OLDER, [("OldestModTime", "", ["big", "out"])])]:
+            t = set_mtime(root, comps(path), stamp)
+            trees.append(t)
+            touch = ([{"path": prev, "mtime": OLD}] if prev and prev != path else []) + [{"path": path, "mtime": stamp}]
+            prev = path
+            for k, (fn, dst, srcs) in enumerate(calls):
+                reqs.append({"env": {"V": "big", "W": ""}, "fn": fn, "dst": dst, "sources": srcs, "target": BASE, "tree": len(trees) - 1, "root": d,
+                             "touch": touch if k == 0 else [], "oracle_only": True, "position": p})
+    ctx.coverage["large_tree_entries"] = n
+    ctx.coverage["large_tree_deciding_positions"] = len(pos)
+
+
 def run(ctx):
     ctx.prove(["Props/C17.vo", "Run/eval_C17.vo"])
     ctx.trusted_base += ["harness/unitrun op target (in-process calls of package target)",
@@ -232,16 +278,30 @@ def run(ctx):
                 node = ("d", BASE - 10**9, {"n": node})
             root[2]["deep"] = node
             root[2].setdefault("out", ("f", BASE))
+        wide_i = None
+        if ti % 15 == 4:
+            # a WIDE directory: a pattern with 9..40 matches of which exactly one (at every sorted position in turn) is newer
+            n = rng.choice([9, 10, 12, 16, 17, 33, 40])
+            wide_i = (ti // 15 + 3) % n if rng.random() < 0.7 else rng.randrange(n)
+            root[2]["wide"] = ("d", BASE - 10**9, {"f%02d" % k: ("f", BASE + 10**9 if k == wide_i else BASE - 10**9) for k in range(n)})
+            root[2]["out"] = ("f", BASE)
         d = os.path.join(ctx.tmp, "t%d" % ti)
         build(d, root)
         trees.append(root)
+        tix = len(trees) - 1
+        if wide_i is not None:
+            for fn, dst, srcs in [("Glob", "out", ["wide/*"]), ("GlobNewer", "", ["wide/*"]), ("Glob", "out", ["wide/f*", "out"]), ("Glob", "out", ["wide/f?" + "?"]),
+                                  ("Dir", "out", ["wide"]), ("DirNewer", "", ["wide"]), ("Path", "out", sorted(root[2]["wide"][2]) and ["wide/" + k for k in sorted(root[2]["wide"][2])])]:
+                reqs.append({"env": {"V": "wide", "W": ""}, "fn": fn, "dst": dst, "sources": srcs, "target": BASE, "tree": tix, "root": d})
+        if ti == 11 or (not ctx.quick and ti % 400 == 11):
+            big_cases(ctx, rng, trees, reqs, ti)
         if "deep" in root[2]:
             for fn, dst, srcs in [("Dir", "out", ["deep"]), ("Dir", "out", ["."]), ("DirNewer", "out", ["deep"]), ("NewestModTime", "", ["deep"]),
                                   ("OldestModTime", "", ["deep", "out"]), ("Dir", "deep", ["out"]), ("Path", "out", ["deep"]), ("Glob", "out", ["dee*"])]:
-                reqs.append({"env": {"V": "deep", "W": ""}, "fn": fn, "dst": dst, "sources": srcs, "target": BASE, "tree": ti, "root": d})
+                reqs.append({"env": {"V": "deep", "W": ""}, "fn": fn, "dst": dst, "sources": srcs, "target": BASE, "tree": tix, "root": d})
         for j in range(per):
             c = gen_case(rng, root, j)
-            c["tree"] = ti
+            c["tree"] = tix
             c["root"] = d
             reqs.append(c)
             if any("$" in s for s in c["sources"]) and c["fn"] not in ("Glob", "GlobNewer") and rng.random() < 0.6:
@@ -261,18 +321,19 @@ def run(ctx):
         trees.append(root)
         c = dict(c, tree=len(trees) - 1, root=d)
         reqs.insert(0, c)
-    inp = "\n".join(json.dumps({"op": "target", "raw": dict({k: c[k] for k in ("root", "env", "fn", "dst", "sources", "target")}, reuse=bool(c.get("reuse")))}) for c in reqs) + "\n"
+    inp = "\n".join(json.dumps({"op": "target", "raw": dict({k: c[k] for k in ("root", "env", "fn", "dst", "sources", "target")}, reuse=bool(c.get("reuse")), touch=c.get("touch") or [])}) for c in reqs) + "\n"
     rc, out, err = sh([binp], input=inp.encode(), timeout=900)
     if rc != 0:
         raise BuildError("unitrun failed: " + err[-2000:])
     answers = [json.loads(l) for l in out.splitlines() if l.strip()]
     assert len(answers) == len(reqs)
     items = []
+    item_req = []
     seen = set()
     nontriv = 0
     dist = {"yes": 0, "no": 0, "error": 0, "time": 0}
     byfn = {}
-    for c, a in zip(reqs, answers):
+    for ri, (c, a) in enumerate(zip(reqs, answers)):
         root = trees[c["tree"]]
         fn = c["fn"]
         byfn[fn] = byfn.get(fn, 0) + 1
@@ -299,8 +360,13 @@ def run(ctx):
             want = oracle(root, c["env"], fn, c["dst"], c["sources"], c["target"], globs)
             bad = None if (want is None or got == want) else "%s(%s; %s) answered %s, the property sentence says %s" % (fn, c["dst"], c["sources"], got, want)
             obs = "(OAns %s)" % {"yes": "Yes", "no": "No", "error": "Error"}[got]
-        if bad:
+        if bad and c.get("oracle_only"):
+            ctx.violation({"kind": "oracle", "clause": bad + " (large tree: the deciding entry is number %d in walk order)" % c["position"]},
+                          case=dict({k: c[k] for k in ("env", "fn", "dst", "sources", "target", "position")}, tree="checks/c17.py big_cases"))
+        elif bad:
             ctx.violation({"kind": "oracle", "clause": bad}, case=dict({k: c[k] for k in ("env", "fn", "dst", "sources", "target")}, tree_node=root))
+        if c.get("oracle_only"):
+            continue
         h = case_hash([c["tree"], fn, c["dst"], c["sources"], c["target"], c["env"]])
         if h not in seen:
             seen.add(h)
@@ -308,12 +374,14 @@ def run(ctx):
                 nontriv += 1
         gl = coq_list(["(%s, %s)" % (coq_str(g), "None" if m is None else "(Some %s)" % coq_list([coq_str(x) for x in m])) for g, m in globs.items()])
         envl = coq_list(["(%s, %s)" % (coq_str(k), coq_str(v)) for k, v in c["env"].items()])
+        item_req.append(ri)
         items.append("{| c_root := %s; c_env := %s; c_globs := %s; c_fn := %s; c_dst := %s; c_srcs := %s; c_target := %s; c_obs := %s |}" % (
             tree_term(root), envl, gl, FNSEL[fn], coq_str(c["dst"]), coq_list([coq_str(s) for s in c["sources"]]), coq_Z(4 * 10**18 if fn == "OldestModTime" else c["target"]), obs))
     header = "From Mage Require Import Base.Strs Base.Expand Model.Newer Run.eval_C17.\n"
     mism = ctx.coq_eval_shards("cases_C17", header, items, per_shard=max(50, (len(items) + NCPU - 1) // NCPU))
     if mism and not ctx.violations:
         for idx, body in mism[:3]:
+            idx = item_req[idx]
             c = reqs[idx]
             ctx.violation({"kind": "model-vs-implementation", "correspondence": "Run/eval_C17.mismatches", "model_says": body[:300],
                            "implementation": answers[idx]}, case=dict({k: c[k] for k in ("env", "fn", "dst", "sources", "target")}, tree_node=trees[c["tree"]]),
